@@ -269,6 +269,9 @@ def run(ch: Choices, opts: Dict[str, Any]) -> Dict[str, Any]:
         report emptiness (or hand out a queued message), not block."""
         if not sc.get("lost_polls"):
             return
+        cur = sched.current
+        if cur is None or threading.current_thread() is not cur.thread:
+            return      # a finaliser running outside the schedule (tear-down): nothing there is bounded by the scheduler
         bump(probes, "poll-inside-connection-lost-callback")
         try:
             m = sock.recv(block=False)
